@@ -6,7 +6,6 @@ import (
 	"encoding/binary"
 	"fmt"
 	"net"
-	"strings"
 
 	"verifharness/cmd/c06/fr"
 	"verifharness/hlib"
@@ -475,6 +474,11 @@ func (c *Gen) Sentinel(k byte) ([]byte, string) {
 		base = c.net
 	}
 	v := base&^0xff | uint32(k)
+	if c.hasNet && c.bits > 24 {
+		// small subnet: its last two hosts
+		size := uint32(1) << uint(32-c.bits)
+		v = base | (size - 2 + uint32(k-250))
+	}
 	src := [4]byte{byte(v >> 24), byte(v >> 16), byte(v >> 8), byte(v)}
 	ip := fmt.Sprintf("%d.%d.%d.%d", src[0], src[1], src[2], src[3])
 	switch {
@@ -484,11 +488,6 @@ func (c *Gen) Sentinel(k byte) ([]byte, string) {
 		return c.buildICMP(src, 0, 0, nil, 0, 1), ip
 	}
 	return c.buildARP(src, 6, 4, true), ip
-}
-
-// IsSentinelHost reports whether a test frame happens to come from one of the two sentinel hosts.
-func IsSentinelHost(ip string) bool {
-	return strings.HasSuffix(ip, ".250") || strings.HasSuffix(ip, ".251")
 }
 
 // SetRange makes the generator work relative to an explicit range (replays).
